@@ -115,6 +115,8 @@ UpdOddFinger(r) ==
   IF r.gen = "panic" THEN {<<"C13", "generator-panic", r.why, r.id>>}
   ELSE IF r.prog.x = "pointer-source-fault" THEN       \* string -> int without a custom function below an update method with a pointer source: must be refused
        (IF r.gen = "ok" THEN {<<"C03", "accepted-inconvertible", "update-pointer-source", r.id>>, <<"C17", "failing-input-reported-as-success", "update-pointer-source", r.id>>} ELSE {})
+  ELSE IF r.prog.x = "default-unexported" THEN       \* `default newDT`, an unexported function of the converter's package, with the output in another package: must be refused
+       (IF r.gen = "ok" THEN {<<"C01", "inaccessible-identifier-accepted", "default-unexported-constructor", r.id>>} ELSE {})
   ELSE IF r.gen = "ok" /\ ~r.compiles THEN {<<"C01", "does-not-compile", "update-" \o r.prog.x, r.id>>} ELSE {}
 \* C01 / C07: `default FUNC` (FUNC without error result) on Conv(source UWS) (UWT, error) whose field conversion fails: the output
 \* compiles (the error branch returns a value of the declared result type) and the error arrives
